@@ -673,6 +673,7 @@ func hammer(s *rt.Spec, scn *rt.Scenario, calls int) *execResult {
 	prog := rt.Lookup(s.Name)
 	res := &execResult{}
 	base := rt.SchedIDs()
+	baseN := runtime.NumGoroutine()
 	const workers = 8
 	var done atomic.Int64
 	var wg sync.WaitGroup
@@ -684,9 +685,22 @@ func hammer(s *rt.Spec, scn *rt.Scenario, calls int) *execResult {
 				env := rt.NewEnv(w, s, scn)
 				env.Race = true
 				ctx, cancel := context.WithCancel(rt.WithEnv(context.Background(), env))
-				env.Cancel = cancel
-				if scn.CancelK == rt.CPre {
+				if scn.CustomCtx {
+					// a hand-written context that stays live after the call (a
+					// long-lived caller context): whatever still watches it is a leak
 					cancel()
+					mc := rt.NewManualCtx(rt.WithEnv(context.Background(), env))
+					ctx = mc
+					cancel = func() {}
+					env.Cancel = mc.Cancel
+					if scn.CancelK != rt.CNone {
+						cancel = mc.Cancel
+					}
+				} else {
+					env.Cancel = cancel
+				}
+				if scn.CancelK == rt.CPre {
+					env.Cancel()
 				}
 				func() {
 					defer func() { recover() }()
@@ -708,6 +722,23 @@ func hammer(s *rt.Spec, scn *rt.Scenario, calls int) *execResult {
 				res.inconclusive = "scheduler goroutines still present after the stress run, not in a stable blocked state"
 			}
 			res.leak = leak
+			// any kind of goroutine: thousands of calls must not leave the process
+			// with many more goroutines than it had (goroutines that have
+			// returned are reaped within moments: poll before judging)
+			if res.leak == "" && res.inconclusive == "" {
+				deadline := time.Now().Add(5 * time.Second)
+				for runtime.NumGoroutine() > baseN+40 && time.Now().Before(deadline) {
+					time.Sleep(20 * time.Millisecond)
+				}
+				if n := runtime.NumGoroutine(); n > baseN+40 {
+					if d, stuck := rt.StableDump(); stuck {
+						if len(d) > 6000 {
+							d = d[:6000] + "\n..."
+						}
+						res.leak = fmt.Sprintf("%d goroutines exist after %d calls of the directive returned, %d before; all are blocked for good:\n%s", n, calls, baseN, d)
+					}
+				}
+			}
 			return res
 		case <-time.After(2 * time.Second):
 		}
